@@ -228,7 +228,7 @@ func c09Routes() []routeCase {
 func runC09(tier string, _ []string) int {
 	c := vlib.NewCtx("C09", tier, "exploration")
 	vlib.SetPortBlock(9)
-	c.SetRule("part A: an instance configured with an auth token; methods x node routes (/v1/nodes, /:id, /points, /samples, /parents, /not, unknown; path-cleaning variants) x 43 Authorization values (absent, empty, the token and near misses, Bearer variants, the instance's JWT, JWTs minted with the instance key read from the store file: other key, empty key, HS384, HS512, none, expired, payload-tampered, truncated, unsigned, garbage, bad signatures combined with future iat / nbf / missing exp; tokens with key-id / key-location header fields signed with an empty, zero or other key; plus a token used while valid and again after its expiry) x bodies; then all credentials at once from 12 goroutines (each answer must be the one its own credential deserves); each probe targets a fresh id and an existing node; monitor: status 401 for every non-credential, no bus message mentioning the probe id on a '>' tap, tree dump unchanged; credentials must be served; NATS TCP and WebSocket connects without / with a wrong token must fail. part A2: the same forged-token probes (tokens signed with an empty / zero key) against an instance restarted on a store whose first start was killed just before the signing key was written (real crash of a writer process at the sqlite.initJwtKey.beforeWrite site). part B: user placements (created, moved, mirrored, deleted, re-added, under a deleted group, two users with one e-mail, wrong password) vs /v1/auth, asked after every single step of a scenario and at its end: token issued exactly when the model finds a live path to the root; the node listing for the issued token is a subset of the subtrees of the user's live placements; every login is accompanied by 27 probes that pair one half of the real credential with a text no user has (query-language and pattern shapes, case and whitespace variants) and must be refused; a third of the addresses contain an apostrophe. distinct = (credential, route kind, outcome) / (placement scenario, model verdict)")
+	c.SetRule("part A: an instance configured with an auth token; methods x node routes (/v1/nodes, /:id, /points, /samples, /parents, /not, unknown; path-cleaning variants) x 43 Authorization values (absent, empty, the token and near misses, Bearer variants, the instance's JWT, JWTs minted with the instance key read from the store file: other key, empty key, HS384, HS512, none, expired, payload-tampered, truncated, unsigned, garbage, bad signatures combined with future iat / nbf / missing exp; tokens with key-id / key-location header fields signed with an empty, zero or other key; plus a token used while valid and again after its expiry) x bodies; then all credentials at once from 12 goroutines (each answer must be the one its own credential deserves); each probe targets a fresh id and an existing node; monitor: status 401 for every non-credential, no bus message mentioning the probe id on a '>' tap, tree dump unchanged; credentials must be served; NATS TCP and WebSocket connects without / with a wrong token must fail. part A2: the same forged-token probes (tokens signed with an empty / zero key) against an instance restarted on a store whose first start was killed just before the signing key was written (real crash of a writer process at the sqlite.initJwtKey.beforeWrite site). part B: user placements (created, moved, mirrored, deleted, re-added, under a deleted group, two users with one e-mail - one of them deleted, or one of them below a deleted group -, wrong password) vs /v1/auth, asked after every single step of a scenario and at its end: token issued exactly when the model finds a live path to the root; the node listing for the issued token is a subset of the subtrees of the user's live placements; every login is accompanied by 27 probes that pair one half of the real credential with a text no user has (query-language and pattern shapes, case and whitespace variants) and must be refused; a third of the addresses contain an apostrophe. distinct = (credential, route kind, outcome) / (placement scenario, model verdict)")
 	c.Assume("'open' header forms (whitespace around the token, lower-case scheme) are only required to leave no trace if answered 401")
 	cl := &http.Client{Timeout: 30 * time.Second}
 
@@ -592,7 +592,7 @@ func runC09(tier string, _ []string) int {
 	nScen := c.N(40, 600)
 	scen := []string{"plain", "moved", "mirrored-old-deleted", "deleted", "deleted-readded", "under-deleted-group", "under-deleted-then-mirrored-live",
 		"two-users-one-email-one-deleted", "two-users-both-deleted", "wrong-password", "moved-twice", "group-moved", "random-history",
-		"mirrored-then-later-group-deleted", "mirrored-then-first-group-deleted", "mirrored-both-groups-deleted", "mirrored-later-group-deleted-and-restored", "three-placements-middle-live"}
+		"mirrored-then-later-group-deleted", "mirrored-then-first-group-deleted", "mirrored-both-groups-deleted", "mirrored-later-group-deleted-and-restored", "three-placements-middle-live", "two-users-one-email-older-under-deleted-group", "two-users-one-email-newer-under-deleted-group"}
 	vlib.Parallel((nScen+len(scen)-1)/len(scen), 4, func(bi int) {
 		r := vlib.NewR(c.Seed, "c09b", bi)
 		authToken := "tok-" + r.Ident(8)
@@ -731,6 +731,18 @@ func runC09(tier string, _ []string) int {
 				} else {
 					step(tomb(u2, g3, 1))
 				}
+			case "two-users-one-email-older-under-deleted-group":
+				// a copy of the user with the same credentials; the group of the older one is deleted (its own
+				// edge stays alive): the copy is connected, the login is good
+				u2, e := mkUser(g3, email, pass)
+				step(e)
+				_ = u2
+				step(tomb(g1, in.RootID, 1))
+			case "two-users-one-email-newer-under-deleted-group":
+				u2, e := mkUser(g3, email, pass)
+				step(e)
+				_ = u2
+				step(tomb(g2, in.RootID, 1))
 			case "two-users-both-deleted":
 				u2, e := mkUser(g3, email, pass)
 				step(e)
